@@ -657,11 +657,13 @@ bool Interpret::getAssignment() const {
     std::ostringstream ss;
     auto const & termNames = solver.getTermNames();
     ss << '(';
+    bool first = true;
     for (auto const & [name, term] : termNames) {
         lbool val = solver.getTermValue(term);
-        ss << '(' << name << ' ' << (val == l_True ? "true" : (val == l_False ? "false" : "unknown")) << ')' << " ";
+        if (not first) { ss << ' '; }
+        first = false;
+        ss << '(' << name << ' ' << (val == l_True ? "true" : (val == l_False ? "false" : "unknown")) << ')';
     }
-    ss.seekp(-1, std::ios::cur);
     ss << ')';
     notify_formatted(false, "%s", ss.str().c_str());
     return true;
